@@ -1735,6 +1735,439 @@ def it_stage(ctx, vlib) -> None:
     ctx.log(f"C: {len(keep)} ImportTracker operation sequences ({nontriv} with a non-empty block), {bad} disagreements")
 
 
+# =====================================================================================
+# wave 3: generated predicates (gen/StubPreds.v), default rendering (Defaults.v), emitted definitions (Emit.v)
+# =====================================================================================
+
+PRED_NAMES = ["x", "_x", "__x", "__x__", "_", "__", "___", "__all__", "__str__", "__init__", "__slots__", "__mypy-x", "a__mypy-b", "X_",
+              "_Private", "__dunder__", "pub", "__path__", "__new__"]
+PRED_CFGS = [(False, None), (True, None), (False, []), (False, ["x", "_x", "__str__"]), (True, ["pub"]), (False, ["__x", "__new__", "_"])]
+
+
+def cfg_coq(ip: bool, all_) -> str:
+    a = "None" if all_ is None else "(Some [" + "; ".join(f'"{x}"' for x in all_) + "])"
+    return f"(mkCfg {'true' if ip else 'false'} {a})"
+
+
+def preds_stage(ctx, vlib) -> None:
+    """translator self-correspondence: gen/StubPreds.v against the real methods"""
+    if vlib.REPO not in sys.path:
+        sys.path.insert(0, vlib.REPO)
+    from mypy.stubgen import ASTStubGenerator
+    exprs, want = [], []
+    for ip, all_ in PRED_CFGS:
+        g = ASTStubGenerator(_all_=all_, include_private=ip)
+        for nm in PRED_NAMES:
+            for fn in (None, "m." + nm, "pyasn1_modules.rfc2437.univ"):
+                exprs.append(f'is_private_name {cfg_coq(ip, all_)} "{nm}" ' + ("None" if fn is None else f'(Some "{fn}")'))
+                want.append(g.is_private_name(nm, fn))
+            for top in (True, False):
+                g._indent = "" if top else "    "
+                g._toplevel_names = ["x", "_x"]
+                exprs.append(f'(is_not_in_all {cfg_coq(ip, all_)} {"true" if top else "false"} "{nm}", '
+                             f'is_recorded_name {"true" if top else "false"} ["x"; "_x"] "{nm}")')
+                want.append((g.is_not_in_all(nm), g.is_recorded_name(nm)))
+            g._indent = ""
+    hdr = "From Coq Require Import List String Bool.\nFrom C19 Require Import Strs.\nFrom Gen Require Import StubPreds.\nImport ListNotations.\nOpen Scope string_scope.\n"
+    res = ctx.eval_cases("preds", hdr, exprs)
+    if res is None:
+        return
+    bad = 0
+    for e, w, r in zip(exprs, want, res):
+        got = (r == "true") if isinstance(w, bool) else tuple(x.strip() == "true" for x in r.strip("()").split(","))
+        if got != w:
+            bad += 1
+            if bad <= 5:
+                ctx.broke("C", "generated predicate vs real method", f"{e}: model {r}, implementation {w}")
+    ctx.add("evaluations", len(exprs))
+    ctx.add("traces_validated_against_impl", len(exprs))
+    ctx.cov["C_predicate_cases"] = len(exprs)
+    ctx.cov["C_predicate_disagreements"] = bad
+    ctx.log(f"C: {len(exprs)} evaluations of the generated predicates vs BaseStubGenerator methods, {bad} disagreements")
+
+
+# ---------------------------------------------------------------- default values
+def gen_dexpr(rng, depth: int):
+    """(python source, Coq Defaults.dexpr)"""
+    k = rng.choice(["name", "int", "float", "unary", "str", "bytes", "other"] if depth == 0 else
+                   ["name", "int", "float", "unary", "str", "bytes", "tuple", "tuple", "list", "set", "dict", "other", "inf"])
+    if k == "name":
+        n = rng.choice(["None", "True", "False", "DEF_K"])
+        return n, f'(DName "{n}")'
+    if k == "int":
+        z = rng.choice([0, 1, 7, 255, 10 ** 30])
+        return str(z), f"(DInt {z}%Z)"
+    if k == "float":
+        t = rng.choice(["1.5", "0.0", "2.0", "1e+100"])
+        return t, f'(DFloat (FFinite "{repr(float(t))}"))'
+    if k == "inf":
+        return "1e999", "(DFloat FInf)"
+    if k == "unary":
+        op = rng.choice(["-", "+", "~", "not "])
+        a = rng.choice([("1", "(DInt 1%Z)"), ("2.5", '(DFloat (FFinite "2.5"))'), ("True", '(DName "True")'), ("(1)", "(DInt 1%Z)")])
+        return f"{op}{a[0]}", f'(DUnary "{op.strip()}" {a[1]})'
+    if k == "str":
+        v = rng.choice(["a", "", "it's", "x" * rng.choice([3, 197, 198, 199, 250])])
+        return repr(v), '(DStr "' + repr(v).replace('"', '""') + '")'
+    if k == "bytes":
+        return "b'x'", "(DBytes \"b'x'\")"
+    if k == "other":
+        s_ = rng.choice(["object()", "os.sep", "lambda: 0", "1 + 2", "[x for x in ()]", "--1", "1j"])
+        return s_, "DOther" if s_ != "--1" else '(DUnary "-" (DUnary "-" (DInt 1%Z)))'
+    n = rng.randint(0, 3)
+    if k == "dict":
+        items = [(gen_dexpr(rng, depth - 1), gen_dexpr(rng, depth - 1)) for _ in range(n)]
+        star = rng.random() < 0.15
+        src = "{" + ", ".join(f"{a[0]}: {b[0]}" for a, b in items) + (", **{}" if star and items else ("**{}" if star else "")) + "}"
+        coq = "[" + "; ".join(f"(Some {a[1]}, {b[1]})" for a, b in items) + ("; " if star and items else "") + ("(None, DDict [])" if star else "") + "]"
+        return src, f"(DDict {coq})"
+    items1 = [gen_dexpr(rng, depth - 1) for _ in range(n)]
+    coq = "[" + "; ".join(x[1] for x in items1) + "]"
+    if k == "tuple":
+        return "(" + ", ".join(x[0] for x in items1) + ("," if n == 1 else "") + ")", f"(DTuple {coq})"
+    if k == "list":
+        return "[" + ", ".join(x[0] for x in items1) + "]", f"(DList {coq})"
+    if n == 0:
+        return "set()", "DOther"
+    return "{" + ", ".join(x[0] for x in items1) + "}", f"(DSet {coq})"
+
+
+DEF_COQ_HEADER = """From Coq Require Import List String Bool ZArith DecimalString.
+From C19 Require Import Defaults.
+Import ListNotations.
+Open Scope string_scope.
+Definition show_z (z : Z) : string := NilZero.string_of_int (Z.to_int z).
+Fixpoint text (ts : list xtok) : string :=
+  match ts with
+  | [] => ""
+  | XComma :: ((XRP :: _) as r) => "," ++ text r      (* the closing of a one-element tuple is written ",)" *)
+  | t :: r => render_x t show_z ++ text r
+  end.
+Definition tlen (ts : list xtok) : nat := String.length (text ts).
+Fixpoint show (e : dexpr) : string :=
+  let fix go (l : list dexpr) : string := match l with [] => "" | x :: r => show x ++ ";" ++ go r end in
+  let fix gokv (l : list (option dexpr * dexpr)) : string :=
+    match l with [] => "" | (Some k, v) :: r => show k ++ ":" ++ show v ++ ";" ++ gokv r | (None, v) :: r => "**" ++ show v ++ ";" ++ gokv r end in
+  match e with
+  | DName s => "N(" ++ s ++ ")" | DInt z => "I(" ++ show_z z ++ ")" | DFloat (FFinite t) => "F(" ++ t ++ ")" | DFloat FInf => "F(inf)"
+  | DUnary op a => "U(" ++ op ++ show a ++ ")" | DStr s => "S(" ++ s ++ ")" | DBytes s => "B(" ++ s ++ ")"
+  | DTuple l => "T[" ++ go l ++ "]" | DList l => "L[" ++ go l ++ "]" | DSet l => "E[" ++ go l ++ "]" | DDict kvs => "D[" ++ gokv kvs ++ "]"
+  | DOther => "O"
+  end.
+"""
+
+
+def canon_default(n: ast.AST) -> str:
+    if isinstance(n, ast.Constant):
+        v = n.value
+        if v is Ellipsis:
+            return "O"
+        if v is None or isinstance(v, bool):
+            return f"N({v})"
+        if isinstance(v, int):
+            return f"I({v})"
+        if isinstance(v, float):
+            return f"F({v!r})"
+        if isinstance(v, str):
+            return f"S({v!r})"
+        if isinstance(v, bytes):
+            return f"B({v!r})"
+    if isinstance(n, ast.Name):
+        return f"N({n.id})"
+    if isinstance(n, ast.UnaryOp):
+        op = {ast.USub: "-", ast.UAdd: "+", ast.Invert: "~", ast.Not: "not"}[type(n.op)]
+        return f"U({op}{canon_default(n.operand)})"
+    if isinstance(n, ast.Tuple):
+        return "T[" + "".join(canon_default(x) + ";" for x in n.elts) + "]"
+    if isinstance(n, ast.List):
+        return "L[" + "".join(canon_default(x) + ";" for x in n.elts) + "]"
+    if isinstance(n, ast.Set):
+        return "E[" + "".join(canon_default(x) + ";" for x in n.elts) + "]"
+    if isinstance(n, ast.Dict):
+        return "D[" + "".join((canon_default(k) + ":" if k is not None else "**") + canon_default(v) + ";" for k, v in zip(n.keys, n.values)) + "]"
+    return "?" + ast.dump(n)[:40]
+
+
+def defaults_stage(ctx, vlib) -> None:
+    rng = vlib.Rng(ctx.seed, "C19-defaults")
+    cases, seen = [], set()
+    for _ in range(ctx.n(1200, 8000)):
+        src, coq = gen_dexpr(rng, rng.randint(0, 3))
+        if src not in seen:
+            seen.add(src)
+            cases.append((src, coq))
+    body = "import os\nDEF_K = 3\n" + "".join(f"def f{i}(x={src}): pass\n" for i, (src, _) in enumerate(cases))
+    tmp = tempfile.mkdtemp(prefix="c19def-")
+    try:
+        open(os.path.join(tmp, "defmod.py"), "w").write(body)
+        st, o = vlib.sh([vlib.PY, "-m", "mypy.stubgen", "--parse-only", "-o", os.path.join(tmp, "out"), "defmod.py"], cwd=tmp, env=vlib.py_env(), timeout=900)
+        if st != 0:
+            ctx.broke("C", "stubgen on the defaults module", f"exit {st}: {o[-800:]}")
+            return
+        txt = open(os.path.join(tmp, "out", "defmod.pyi")).read()
+    finally:
+        shutil.rmtree(tmp, ignore_errors=True)
+    real = {int(m.group(1)): m.group(2) for m in re.finditer(r"(?m)^def f(\d+)\(x(?:: [^=]*?)?\s?=\s?(.*)\)(?: -> None)?: \.\.\.$", txt)}
+    exprs = [f"let e := {coq} in (text (default_tokens tlen e), match parse_default (default_tokens tlen e) with Some p => show p | None => \"NONE\" end, "
+             f"match parse_default (default_tokens tlen e) with Some p => closed p | None => false end, finite e)" for _, coq in cases]
+    res = ctx.eval_cases("defaults", DEF_COQ_HEADER, exprs)
+    if res is None:
+        return
+    bad = n_lit = 0
+    for i, ((src, coq), r) in enumerate(zip(cases, res)):
+        m = re.match(r'^\("((?:[^"]|"")*)", "((?:[^"]|"")*)", (true|false), (true|false)\)$', r)
+        if not m:
+            ctx.broke("C", "cannot read defaults model output", r[:200])
+            return
+        mtext, mshow, mclosed = m.group(1).replace('""', '"'), m.group(2).replace('""', '"'), m.group(3) == "true"
+        rt = real.get(i)
+        if rt != mtext:
+            bad += 1
+            if bad <= 5:
+                ctx.broke("C", "model vs stubgen default text", f"`def f(x={src})`: model `{mtext}` stubgen `{rt}`")
+            continue
+        n_lit += rt != "..."
+        try:
+            node = ast.parse(rt, mode="eval").body
+            ca = canon_default(node)
+            free = sorted({x.id for x in ast.walk(node) if isinstance(x, ast.Name)} - {"True", "False", "None"})
+        except SyntaxError:
+            ca, free = "NONE", []
+        if ca != mshow or (not free) != mclosed:
+            bad += 1
+            if bad <= 5:
+                ctx.broke("C", "model default parser vs CPython ast", f"`{rt}`: model {mshow} closed={mclosed}; CPython {ca} free={free}")
+            continue
+        # the property on the implementation
+        if ca == "NONE":
+            ctx.violation("default:invalid", f"default `{src}` is rendered as `{rt}`: not a Python expression", {"kind": "default", "source": src, "stub": rt})
+        elif free:
+            ctx.violation("default:free-name:" + ",".join(free), f"default `{src}` is rendered as `{rt}`: free identifier(s) {free}",
+                          {"kind": "default", "source": f"def f(x={src}): pass", "stub_default": rt})
+        elif rt != "...":
+            try:
+                same = repr(eval(src, {"__builtins__": {}, "DEF_K": 3})) == repr(eval(rt, {"__builtins__": {}}))
+            except Exception:  # noqa
+                same = True     # source default not evaluable here (set() etc.): nothing to compare
+            if not same:
+                ctx.violation("default:value", f"default `{src}` is rendered as `{rt}` which has a different value", {"kind": "default", "source": src, "stub": rt})
+    ctx.add("evaluations", len(cases))
+    ctx.add("traces_validated_against_impl", len(cases))
+    ctx.cov["C_default_cases"] = len(cases)
+    ctx.cov["C_default_cases_rendered_as_literal"] = n_lit
+    ctx.cov["C_default_disagreements"] = bad
+    ctx.log(f"C: {len(cases)} default values ({n_lit} rendered as literals): text, CPython ast, free names, value; {bad} disagreements")
+
+
+# ---------------------------------------------------------------- emitted definitions (coq/C19/Emit.v) vs real stubs
+EMIT_NAMES_TOP = ["f", "g", "_h", "__k", "__d__", "X", "Y", "_Z", "v", "w", "_u", "__all2__", "A1", "A2"]
+EMIT_NAMES_CLS = ["m", "n", "_p", "__q", "__eq__", "__str__", "__init__", "__slots__", "__repr__", "a", "_b", "In1", "__hash__"]
+
+
+class EGen:
+    """random module of the language of Emit.v: (python source lines, Coq item list)"""
+
+    def __init__(self, rng):
+        self.rng = rng
+
+    def deco(self, in_class: bool):
+        k = self.rng.choice(["plain", "call", "static"] if in_class else ["plain", "call"])
+        if k == "plain":
+            return "@dc0", '(mkDeco "dc0" true false)'
+        if k == "call":
+            return "@dcall(1)", '(mkDeco "dcall" false false)'
+        return "@staticmethod", '(mkDeco "staticmethod" true false)'
+
+    def items(self, depth: int, in_class: bool, ind: str, n: int, kinds: dict | None = None):
+        src: list[str] = []
+        coq: list[str] = []
+        names = EMIT_NAMES_CLS if in_class else EMIT_NAMES_TOP
+        selfarg = "self" if in_class else ""
+        kinds = kinds if kinds is not None else {}
+        group = {"func": "f", "dfunc": "f", "overload": "f", "prop": "f", "var": "v", "avar": "v", "alias": "v", "class": "c", "if": None}
+        for _ in range(n):
+            nm = self.rng.choice(names)
+            k = self.rng.choice(["func", "func", "dfunc", "var", "avar", "alias", "class", "if", "overload", "prop"])
+            # one name = one kind of definition per scope (a class re-bound as a variable makes the semantic analyser
+            # report errors and changes what stubgen sees; alternatives of the SAME kind are what the model is about)
+            if group[k] is not None and kinds.get(nm, group[k]) != group[k]:
+                continue
+            if k in ("dfunc", "overload", "prop", "alias") and nm in kinds:
+                continue     # re-defining a name with a decorated function / an alias is an error for the semantic analyser
+            if group[k] is not None:
+                kinds[nm] = group[k]
+                if k in ("dfunc", "overload", "prop"):
+                    kinds[nm] = "F!"      # nothing else may re-bind it
+            if k == "func":
+                src.append(f"{ind}def {nm}({selfarg}): pass")
+                coq.append(f'IFunc "{nm}" [] []')
+            elif k == "dfunc":
+                ds = [self.deco(in_class) for _ in range(self.rng.randint(1, 2))]
+                st_ = any(d[0] == "@staticmethod" for d in ds)
+                src += [ind + d[0] for d in ds] + [f"{ind}def {nm}({'' if st_ else selfarg}): pass"]
+                coq.append(f'IFunc "{nm}" [' + "; ".join(d[1] for d in ds) + "] []")
+            elif k == "var":
+                src.append(f"{ind}{nm} = 1")
+                coq.append(f'IVar "{nm}" false VPlain []')
+            elif k == "avar":
+                src.append(f"{ind}{nm}: int = 1")
+                coq.append(f'IVar "{nm}" true VPlain []')
+            elif k == "alias" and not in_class:
+                form = self.rng.choice(["imp", "exp", "qual"])
+                if form == "imp":
+                    src.append(f"{ind}{nm} = list[int]"); coq.append(f'IVar "{nm}" false VAliasImplicit []')
+                elif form == "exp":
+                    src.append(f"{ind}{nm}: TypeAlias = list[int]"); coq.append(f'IVar "{nm}" true VAliasExplicit []')
+                else:
+                    src.append(f"{ind}{nm}: typing.TypeAlias = list[int]"); coq.append(f'IVar "{nm}" true VAliasQualified []')
+            elif k == "class" and depth > 0:
+                bs, bc = self.items(depth - 1, True, ind + "    ", self.rng.randint(0, 4))
+                src.append(f"{ind}class {nm}:")
+                src += bs or [ind + "    pass"]
+                coq.append(f'IClass "{nm}" [] [' + "; ".join(bc) + "]")
+            elif k == "if" and depth > 0:
+                b1s, b1c = self.items(depth - 1, in_class, ind + "    ", self.rng.randint(1, 2), kinds)
+                b2s, b2c = self.items(depth - 1, in_class, ind + "    ", self.rng.randint(1, 2), kinds)
+                src += [f"{ind}if KCOND:"] + (b1s or [ind + "    pass"]) + [f"{ind}else:"] + (b2s or [ind + "    pass"])
+                coq.append("IIf [" + "; ".join(b1c) + "] [" + "; ".join(b2c) + "]")
+            elif k == "overload":
+                a1 = f"{selfarg}, x: int" if in_class else "x: int"
+                a2 = f"{selfarg}, x: str" if in_class else "x: str"
+                a3 = f"{selfarg}, x" if in_class else "x"
+                src += [f"{ind}@overload", f"{ind}def {nm}({a1}) -> int: ...", f"{ind}@overload", f"{ind}def {nm}({a2}) -> str: ...",
+                        f"{ind}def {nm}({a3}): return x"]
+                ov = '([mkDeco "overload" true true], [])'
+                coq.append(f'IOverloaded "{nm}" [{ov}; {ov}; ([], [])]')
+            elif k == "prop" and in_class:
+                src += [f"{ind}@property", f"{ind}def {nm}(self): return 1", f"{ind}@{nm}.setter", f"{ind}def {nm}(self, v): pass"]
+                coq.append(f'IOverloaded "{nm}" [([mkDeco "property" true false], []); ([mkDeco "{nm}" true false], [])]')
+        return src, coq
+
+
+EMIT_HEADER_SRC = ("import typing\nfrom typing import TypeAlias, overload\n"
+                   "def dc0(f): return f\ndef dcall(n): return dc0\nKCOND = 1\n")
+EMIT_HEADER_COQ = 'IFunc "dc0" [] []; IFunc "dcall" [] []; IVar "KCOND" false VPlain []'
+EMIT_COQ_HEADER = """From Coq Require Import List String Bool.
+From C19 Require Import Strs Emit.
+From Gen Require Import StubPreds.
+Import ListNotations.
+Open Scope string_scope.
+Fixpoint show (o : out) : string :=
+  let fix go (l : list out) : string := match l with [] => "" | x :: r => show x ++ ";" ++ go r end in
+  match o with
+  | OFunc n ds _ => "F:" ++ n ++ "[" ++ String.concat "," ds ++ "]"
+  | OClass n _ body => "C:" ++ n ++ "{" ++ go body ++ "}"
+  | OVar n _ | OAlias n _ => "V:" ++ n
+  end.
+Definition shows (l : list out) : string := String.concat ";" (map show l).
+"""
+
+
+def stub_show(body: list[ast.stmt]) -> str:
+    out = []
+    for st_ in body:
+        if isinstance(st_, (ast.FunctionDef, ast.AsyncFunctionDef)):
+            ds = []
+            for d in st_.decorator_list:
+                x = d.func if isinstance(d, ast.Call) else d
+                while isinstance(x, ast.Attribute):
+                    x = x.value
+                ds.append(x.id if isinstance(x, ast.Name) else "?")
+            out.append(f"F:{st_.name}[{','.join(ds)}]")
+        elif isinstance(st_, ast.ClassDef):
+            inner = stub_show([x for x in st_.body if not (isinstance(x, ast.Expr) and isinstance(x.value, ast.Constant))])
+            out.append("C:" + st_.name + "{" + "".join(x + ";" for x in inner.split(";;") if x) + "}" if False else "C:" + st_.name + "{" + inner_join(inner) + "}")
+        elif isinstance(st_, ast.AnnAssign) and isinstance(st_.target, ast.Name):
+            out.append("V:" + st_.target.id)
+        elif isinstance(st_, ast.Assign) and len(st_.targets) == 1 and isinstance(st_.targets[0], ast.Name):
+            out.append("V:" + st_.targets[0].id)
+        elif isinstance(st_, (ast.Import, ast.ImportFrom)):
+            continue
+        else:
+            out.append("?" + type(st_).__name__)
+    return "\x00".join(out)
+
+
+def inner_join(inner: str) -> str:
+    return "".join(x + ";" for x in inner.split("\x00") if x)
+
+
+def emit_stage(ctx, vlib) -> None:
+    rng = vlib.Rng(ctx.seed, "C19-emit")
+    g = EGen(rng)
+    cfgs = [(False, None), (False, "all"), (True, None)]
+    n_mod = ctx.n(40, 300)
+    mods = []
+    for i in range(n_mod):
+        src, coq = g.items(2, False, "", rng.randint(2, 7))
+        ip, al = cfgs[i % 3]
+        all_ = None
+        if al:
+            tops = sorted({m.group(1) for l in src for m in [re.match(r"(?:def |class )?(\w+)", l)] if m and not l.startswith((" ", "@", "if", "else"))} - {"def", "class"})
+            all_ = [t for t in tops if rng.random() < 0.6] or tops[:1]
+        mods.append((f"em{i:03d}", src, coq, ip, all_))
+    tmp = tempfile.mkdtemp(prefix="c19emit-")
+    stubs: dict[tuple[str, str], str] = {}
+    try:
+        for ip in (False, True):
+            d = os.path.join(tmp, "ip" if ip else "np")
+            os.makedirs(d)
+            names = []
+            for nm, src, coq, mip, all_ in mods:
+                if mip != ip:
+                    continue
+                body = EMIT_HEADER_SRC + (f"__all__ = {all_!r}\n" if all_ is not None else "") + "\n".join(src) + "\n"
+                open(os.path.join(d, nm + ".py"), "w").write(body)
+                names.append(nm + ".py")
+            for mode in ("parse", "semantic"):
+                out = os.path.join(d, "out_" + mode)
+                st, o = vlib.sh([vlib.PY, "-m", "mypy.stubgen", *MODES[mode], *( ["--include-private"] if ip else []), "-o", out, *names],
+                                cwd=d, env=vlib.py_env(), timeout=900)
+                if st != 0:
+                    ctx.broke("C", "stubgen on the emit modules", f"{mode} include_private={ip}: exit {st}: {o[-800:]}")
+                    return
+                for nm, *_ in mods:
+                    pth = os.path.join(out, nm + ".pyi")
+                    if os.path.exists(pth):
+                        stubs[(nm, mode)] = open(pth).read()
+    finally:
+        shutil.rmtree(tmp, ignore_errors=True)
+    exprs = []
+    for nm, src, coq, ip, all_ in mods:
+        its = "[" + "; ".join([EMIT_HEADER_COQ] + coq) + "]"
+        # stubgen on FILES in --parse-only mode never learns __all__ (it comes from the import or the semantic analysis)
+        exprs.append(f"(shows (emit_module {cfg_coq(ip, None)} {its}), shows (emit_module {cfg_coq(ip, all_)} {its}))")
+    res = ctx.eval_cases("emit", EMIT_COQ_HEADER, exprs, per_file=100)
+    if res is None:
+        return
+    bad = 0
+    for (nm, src, coq, ip, all_), r in zip(mods, res):
+        mm = re.match(r'^\("([^"]*)", "([^"]*)"\)$', r.strip())
+        if not mm:
+            ctx.broke("C", "cannot read emit model output", r[:200])
+            return
+        for mode in ("parse", "semantic"):
+            model = mm.group(1) if mode == "parse" else mm.group(2)
+            stub = stubs.get((nm, mode))
+            if stub is None:
+                ctx.broke("C", "no stub for an emit module", f"{nm} {mode}")
+                bad += 1
+                continue
+            tree = ast.parse(stub)
+            body = [x for x in tree.body if not (isinstance(x, ast.Assign) and isinstance(x.targets[0], ast.Name) and x.targets[0].id == "__all__")]
+            real = ";".join(x for x in stub_show(body).split("\x00") if x)
+            if real != model:
+                bad += 1
+                if bad <= 4:
+                    ctx.broke("C", "model vs stubgen emitted definitions", f"{mode} include_private={ip} __all__={all_}:\n" + "\n".join(src) +
+                              f"\nmodel: {model}\nstub : {real}")
+    ctx.add("evaluations", len(mods))
+    ctx.add("traces_validated_against_impl", 2 * len(mods))
+    ctx.cov["C_emit_modules"] = len(mods)
+    ctx.cov["C_emit_disagreements"] = bad
+    ctx.log(f"C: {len(mods)} modules of the Emit.v language x 2 modes (names, kinds, order, nesting, decorators of the stub), {bad} disagreements")
+
+
 def run(ctx) -> None:
     import vlib
     ctx.cov["rule"] = ("S: generated modules (19 construct families; unit modules of one family + random mixes; with/without __all__ and "
@@ -1749,12 +2182,20 @@ def run(ctx) -> None:
         "S oracle: stubtest reports that also occur when the source module is checked against itself are subtracted as oracle strictness",
         "hand-written generator/normaliser in tools/harness/C19.py (structural comparison normalises qualification, quoting, Optional/Union)",
     ]
-    ctx.prove("C19/Properties.v", ["C19"])
+    try:
+        from extractors import t19
+        t19.generate()
+    except Exception as e:  # noqa  (fail-closed translator: Unsupported and everything else)
+        ctx.broke("T", "t19 translator (gen/StubPreds.v)", repr(e))
+    ctx.prove("C19/Properties.v", ["C19", "gen"])
     if os.environ.get("C19_SKIP_C") != "1":
         c_stage(ctx, vlib)
         grammar_stage(ctx, vlib)
         ann_stage(ctx, vlib)
         it_stage(ctx, vlib)
+        preds_stage(ctx, vlib)
+        defaults_stage(ctx, vlib)
+        emit_stage(ctx, vlib)
     if os.environ.get("C19_SKIP_S") != "1":
         s_stage(ctx, vlib)
     ctx.cov["distinct_nontrivial"] = ctx.cov.get("C_signature_cases", 0) + ctx.cov.get("S_stubs_parsed", 0)
